@@ -77,7 +77,7 @@ def _run(events: list) -> bool:
         for a in events:
             ev = ALPHA[concretize(a, NA - 1)]
             if not s.apply(ev):
-                return True
+                return track.pruned()  # event not enabled here
         s.settle()
         if s.conn.connection_state is not CLOSED:
             # still open: legitimate only while its transport is alive -- once connection_lost has been
